@@ -126,6 +126,7 @@ func (lex *Lexer) Lex() *token.Token {
         main := |*
             "#!" any* :>> newline => {
                 lex.addFreeFloatingToken(tkn, token.T_COMMENT, lex.ts, lex.te)
+                fnext html;
             };
             any => {
                 fnext html;
